@@ -347,7 +347,7 @@ def _run(ctx):
 
     # 1. the design: FSM_mod*.cfg carry the invariants; the edge run below is the exhaustive check
     # 2. behaviours: every transition of the message-of-death graph
-    behs, nedges = eng.edges("FSM_mod.cfg" if quick else "FSM_mod2.cfg", timeout=1500)
+    behs, nedges = eng.edges("FSM_mod.cfg" if quick else "FSM_mod2.cfg", timeout=1500, coverage=not quick)
     ctx.cov["edges_mod"] = nedges
     crash = [b for b in behs if any(h["a"] == "ApplyPanics" for h in b)]
     # without a crash: the ones where a snapshot folds every entry are plain C02 material (replayed there)
